@@ -164,6 +164,7 @@ def explore_unit(inst, prefix, max_paths=400, max_seconds=30.0, want_witness=Fal
             continue
         out['paths'] += 1
         obs = [(n, zb(o)) for n, o in (obs or [])]
+        all_names = [n for n, _ in obs]
         out['obligations'] += len(obs)
         for n, _ in obs:
             out['ob_names'][n] = out['ob_names'].get(n, 0) + 1
@@ -247,7 +248,7 @@ def explore_unit(inst, prefix, max_paths=400, max_seconds=30.0, want_witness=Fal
         if len(out['samples']) < 2:
             out['samples'].append(dict(instance=inst.name, decisions=''.join('T' if d else 'F' for d in ctx.decisions)[:120],
                                        path_condition_conjuncts=ctx.npc,
-                                       obligations=[n for n, _ in obs][:12], notes=list(ctx.notes)[:6]))
+                                       obligations=all_names[:12], notes=list(ctx.notes)[:6]))
         if want_witness and out['witness'] is None and r == 'sat' and m is not None:
             vals, tables = _model_values(ctx, m)
             observed = []
@@ -257,7 +258,7 @@ def explore_unit(inst, prefix, max_paths=400, max_seconds=30.0, want_witness=Fal
                 except Exception:
                     observed.append((n, None))
             out['witness'] = dict(instance=inst.name, prefix=list(ctx.decisions), values=vals, tables=tables,
-                                  observed=observed, obligations=[n for n, _ in obs])
+                                  observed=observed, obligations=all_names)
         _acc(out, ctx)
     out['wall'] = time.time() - t0
     Ctx.cur = None
